@@ -1461,7 +1461,14 @@ SyntaxVisitor::Action TypeChecker::visitCallExpression(
 
 SyntaxVisitor::Action TypeChecker::visitVAArgumentExpression(const VAArgumentExpressionSyntax*) { return Action::Skip; }
 SyntaxVisitor::Action TypeChecker::visitOffsetOfExpression(const OffsetOfExpressionSyntax*) { return Action::Skip; }
-SyntaxVisitor::Action TypeChecker::visitCompoundLiteralExpression(const CompoundLiteralExpressionSyntax*) { return Action::Skip; }
+SyntaxVisitor::Action TypeChecker::visitCompoundLiteralExpression(const CompoundLiteralExpressionSyntax* node)
+{
+    // The type of a compound literal is the one named between the
+    // parentheses (6.5.2.5-4).
+    VISIT(node->typeName());
+
+    return typeChecked(node, ty_);
+}
 
 SyntaxVisitor::Action TypeChecker::visitBinaryExpression(const BinaryExpressionSyntax* node)
 {
